@@ -425,6 +425,41 @@ def check_retention(ctx, entry, t):
                  f"{entry} on an escape-rich receiver changed what it carries over: " + "; ".join(f"{c}: {w!r} -> {n!r}" for c, w, n in bad[:3]), fields=["retained:" + bad[0][0]], raw=str(u))
 
 
+def check_same_text(ctx, t, sig):
+    """A modifier is handed, as DECODED text, exactly the raw text the receiver already holds in that component (escapes included):
+    the argument's '%' are data, so the new component must decode to the argument's characters - 'nothing changes' is not true."""
+    from yarl import URL
+
+    if has_surrogate(t) or any(c in t for c in "/?#@:[]"):
+        return
+    b = guarded(URL, f"http://u{t}:p{t}@h/d/n{t}?k={t}#f{t}")
+    if is_exc(b):
+        return
+    for label, raw_of, fn, got_of in (("with_fragment", lambda: b.raw_fragment, lambda a: b.with_fragment(a), lambda u: u.raw_fragment), ("with_user", lambda: b.raw_user, lambda a: b.with_user(a), lambda u: u.raw_user),
+                                      ("with_password", lambda: b.raw_password, lambda a: b.with_password(a), lambda u: u.raw_password), ("with_name", lambda: b.raw_name, lambda a: b.with_name(a), lambda u: u.raw_name),
+                                      ("with_path", lambda: b.raw_path, lambda a: b.with_path(a), lambda u: u.raw_path), ("with_query", lambda: b.raw_query_string, lambda a: b.with_query({"k": a}), lambda u: u.raw_query_string.partition("=")[2])):
+        arg = raw_of()
+        if not arg or "%" not in arg:
+            continue
+        u = guarded(fn, arg)
+        if is_exc(u):
+            continue
+        got = got_of(u)
+        want = utf8(arg)
+        if label == "with_path":
+            ok = [pct_decode_bytes(x) for x in got.split("/")] == [utf8(x) for x in arg.split("/")]
+        elif label == "with_query":
+            ok = pct_decode_bytes(got, True) == want
+        else:
+            ok = pct_decode_bytes(got) == want
+        ctx.count("same_text_checked")
+        ctx.ev(sig + (label, "ok" if ok else "bad") if sig else None)
+        if not ok:
+            ctx.fail("meaning_changed", {"regime": "same_text", "text": t}, f"{label}({arg!r}) on a receiver that already holds that raw text gives {got!r}, which does not decode to the argument's characters",
+                     fields=["same_text:" + label], raw=str(u))
+            return
+
+
 def check_update_str(ctx, t, sig):
     """update_query(str) / '%' READ the text as an encoded query (escapes and '+' are live, like the constructor's query): every supplied
     pair must come out with the same decoded bytes, on a receiver WITHOUT a query (absolute and relative) and on one with an unrelated pair."""
@@ -563,6 +598,8 @@ def run(ctx):
             check_update_str(ctx, c["text"], ("replay",))
         elif c["regime"] == "extend_boundary":
             check_extend_boundary(ctx, c["text"], ("replay",))
+        elif c["regime"] == "same_text":
+            check_same_text(ctx, c["text"], ("replay",))
         else:
             check_join(ctx, c["base"], c["ref"], ("replay",))
         return
@@ -588,6 +625,7 @@ def run(ctx):
                 check_retained(ctx, t, ("retained", kind, b >> 3, nb))
                 check_update_str(ctx, f"k{t}=v{t}&x=1", ("update_str", kind, b >> 3, nb))
                 check_extend_boundary(ctx, t, ("extend_boundary", kind, b >> 3, nb))
+                check_same_text(ctx, t, ("same_text", kind, b >> 3, nb))
                 check_join(ctx, f"http://h/d{t}/e{t}/f?bq#bf", f"g{t}/../h?{t}#{t}", ("join", kind, b >> 3, nb))
                 check_join(ctx, f"http://h/a%20b/c%2Fd%3F%23%25/{t}/f", "x", ("join-esc", kind, b >> 3, nb))
         # kept escapes (encoded delimiters, bytes >= 0x80, lower-case hex) placed around the compiled writer's buffer sizes: the
